@@ -84,6 +84,13 @@ func TestVerifFPMTrace(t *testing.T) {
 			n++
 		}
 	}
+	// texts without any token, and sources too short for a single hash, on either side, also against themselves
+	for _, s := range []string{"", " ", "\n\t ", "a", "a b", "a b c"} {
+		for _, tg := range []string{"", " ", " \n", "a", "a b", "a b c", "b a b a"} {
+			fpmEvent(out, s, tg)
+			n++
+		}
+	}
 	// longer sources against short targets over the same two words: chains of hits that are still open when the target
 	// ends, in every order
 	maxSrc, maxTgt := vuEnvInt("VERIF_MAXSRC", 10), vuEnvInt("VERIF_MAXTGT", 5)
